@@ -278,4 +278,162 @@ def shapeOf (e : Evt) : Shape :=
     value := valueClass (lookupFirst "metric_value" e.props)
     agg := aggClass (lookupFirst "metric_agg" e.props) }
 
+/-! ## Part 2 — C12: size-split batches, the send loop, the connection slot, retries
+
+  Mirrors (line numbers of the pinned tree 4dcf5f6)
+    * `Channel::push` / `len`                       /repo/emitter/otlp/src/client.rs:707-751
+    * `OtlpTransport::send` / `send_batch`          client.rs:552-623   (after `fix:` removing the second `pop`)
+    * `HttpConnection::send`, `poison`/`unpoison`   client/http.rs:331-387
+    * response interpretation                       client.rs:422-441 (HTTP), 492-534 (gRPC)
+    * the receiver's retry loop                     /repo/batcher/src/lib.rs:405-441, 629-646 (`Retry::next`)
+  One instance (`Net`) per signal: each signal owns its channel, transport and connection (client.rs:211-294).
+-/
+
+/-- An encoded event: the id the harness gave it and `event.payload.len()`. -/
+structure Ev where
+  id : Int
+  size : Nat
+  deriving Repr, DecidableEq, Inhabited
+
+abbrev Request := List Ev
+
+def reqSize (r : Request) : Nat := (r.map (·.size)).sum
+
+/-- `Channel`. `requests` is stored newest-first: its head is `self.requests.last()` — the request being
+    filled by `push` and the first one `send` transmits. -/
+structure Chan where
+  requests : List Request
+  cur : Nat          -- current_request_size_bytes
+  total : Nat        -- total_items
+  deriving Repr, DecidableEq, Inhabited
+
+def Chan.empty : Chan := ⟨[], 0, 0⟩
+
+/-- `Channel::push` (client.rs:714-734) with `item.max_request_size_bytes = limit`. -/
+def Chan.push (limit : Nat) (c : Chan) (e : Ev) : Chan :=
+  match c.requests with
+  | [] => ⟨[[e]], e.size, c.total + 1⟩
+  | r :: rs =>
+    if c.cur ≥ limit then ⟨[e] :: r :: rs, e.size, c.total + 1⟩
+    else ⟨(r ++ [e]) :: rs, c.cur + e.size, c.total + 1⟩
+
+def Chan.ofEvents (limit : Nat) (evs : List Ev) : Chan := evs.foldl (Chan.push limit) Chan.empty
+
+/-- `Channel::len`. -/
+def Chan.len (c : Chan) : Nat := c.total
+
+/-- What the scripted collector does with one request. -/
+inductive Resp where
+  | ack                  -- 200, empty body / trailers `grpc-status: 0`
+  | ackBody              -- the same with a response body / message
+  | status (n : Nat)     -- HTTP status n, no grpc-status anywhere
+  | grpc (n : Nat)       -- 200 + trailers `grpc-status: n`
+  | grpcH (n : Nat)      -- 200, `grpc-status: n` in the headers ("Trailers-Only"), no trailers
+  | stall                -- body read, never answered (the request times out)
+  | rstB                 -- connection dropped before the body is read
+  | rstA                 -- connection dropped after the body is read
+  deriving Repr, DecidableEq, Inhabited
+
+inductive Transport where
+  | http | grpc
+  deriving Repr, DecidableEq, Inhabited
+
+/-- Does a response head reach the client (`send_request(..).await` returns `Ok`)? -/
+def Resp.headArrives : Resp → Bool
+  | .stall => false | .rstB => false | .rstA => false | _ => true
+
+/-- The collector's own view: did it acknowledge the request? -/
+def Resp.isAck : Resp → Bool
+  | .ack => true | .ackBody => true
+  | .status n => decide (200 ≤ n) && decide (n < 300)
+  | .grpc n => n == 0
+  | .grpcH n => n == 0
+  | _ => false
+
+/-- HTTP status carried by a response whose head arrives. -/
+def Resp.httpStatus : Resp → Nat
+  | .status n => n | _ => 200
+
+/-- `grpc-status` as the client determines it: the trailers' value, else the headers' value (a Trailers-Only
+    response), else none. -/
+def Resp.grpcStatus : Resp → Option Nat
+  | .ack => some 0 | .ackBody => some 0 | .grpc n => some n | .grpcH n => some n | _ => none
+
+/-- The `response` closures of `OtlpTransportBuilder::build` applied to a response whose head arrived.
+    HTTP (client.rs:422-441): success iff 200 ≤ status < 300.
+    gRPC (client.rs:492-534, after the `fix:` for non-2xx / trailers-only responses): a non-2xx HTTP status
+    fails; otherwise `status` starts from the `grpc-status` header (0 when absent), is overwritten by a
+    `grpc-status` trailer, and the request succeeded iff it is 0. -/
+def interpret : Transport → Resp → Bool
+  | .http, r => decide (200 ≤ r.httpStatus) && decide (r.httpStatus < 300)
+  | .grpc, r => decide (200 ≤ r.httpStatus) && decide (r.httpStatus < 300) && r.grpcStatus.getD 0 == 0
+
+/-- One request as the collector records it. -/
+structure Entry where
+  ids : Option (List Int)   -- `none`: the body was never read (`rstB`)
+  resp : Resp
+  fresh : Bool              -- arrived on a connection established for this request
+  deriving Repr, DecidableEq, Inhabited
+
+/-- One signal's transport state and what its endpoint has seen. -/
+structure Net where
+  dead : Bool               -- nothing listens on the endpoint: `connect` fails
+  script : List Resp        -- responses for the next requests; afterwards `ack`
+  slot : Bool               -- `sender: Mutex<Option<HttpSender>>` holds a connection
+  conns : Nat               -- connections established so far
+  log : List Entry          -- newest first
+  deriving Repr, DecidableEq, Inhabited
+
+def reqIds (r : Request) : List Int := r.map (·.id)
+
+/-- `send_batch` → `HttpConnection::send` for one request (http.rs:343-386):
+    take the pooled sender (`poison`) or connect; send; on a response head put the sender back (`unpoison`)
+    and interpret the response; any earlier error or the timeout drops the sender, leaving the slot empty. -/
+def attempt (tr : Transport) (net : Net) (r : Request) : Bool × Net :=
+  if net.dead then (false, { net with slot := false })
+  else
+    let fresh := !net.slot
+    let resp := net.script.headD .ack
+    let e : Entry := ⟨if resp = .rstB then none else some (reqIds r), resp, fresh⟩
+    (resp.headArrives && interpret tr resp,
+     { net with script := net.script.tail, slot := resp.headArrives,
+                conns := net.conns + (if fresh then 1 else 0), log := e :: net.log })
+
+inductive SendResult where
+  | ok
+  | retry (remaining : List Request)
+  | noRetry
+  deriving Repr, DecidableEq, Inhabited
+
+/-- `OtlpTransport::send` (client.rs:552-576): transmit `requests.last()`, pop it on success, return the
+    channel with everything not yet popped on failure. (`noRetry` is only produced by a request encoder error,
+    which the infallible encoders never raise.) -/
+def send (tr : Transport) : List Request → Net → SendResult × Net
+  | [], net => (.ok, net)
+  | r :: rs, net =>
+    match attempt tr net r with
+    | (true, net') => send tr rs net'
+    | (false, net') => (.retry (r :: rs), net')
+
+/-- The receiver's loop around `on_batch` (batcher/src/lib.rs:405-441): on a retryable error with
+    `retryable.len() > 0` and retries left (`Retry::next`, max 10) run again with the remainder (after the
+    back-off wait, which has no state); otherwise the batch is dropped. `total` is `Channel::len` of the
+    remainder — `total_items` is never decremented by `send`, so it is the batch's item count. -/
+def execBatch (tr : Transport) (total : Nat) : Nat → List Request → Net → Bool × Net
+  | retries, reqs, net =>
+    match send tr reqs net with
+    | (.ok, net') => (true, net')
+    | (.noRetry, net') => (false, net')
+    | (.retry rem, net') =>
+      match retries with
+      | 0 => (false, net')
+      | k + 1 => if total > 0 then execBatch tr total k rem net' else (false, net')
+
+def maxRetries : Nat := 10
+
+/-- Emit `evs` (already routed to this signal) while the worker is busy, then let it take the batch. -/
+def runSignal (tr : Transport) (limit : Nat) (evs : List Ev) (net : Net) : Bool × Net :=
+  let c := Chan.ofEvents limit evs
+  if c.len = 0 then (true, net) else execBatch tr c.total maxRetries c.requests net
+
 end EmitModel.Otlp
